@@ -59,6 +59,7 @@ class _Ctx:
 
 
 CTX = _Ctx()
+PATH_RESET_HOOKS = []      # callables run (untraced) at the start of every path / native run
 
 
 def symbolic_mode():
@@ -205,6 +206,11 @@ z3.Solver.check = _counting_check
 # eagerly).  Contract: message text never influences behaviour; checked by
 # engine.scan.fmt_scan on every run.
 def _fmt_stub(self, other):
+    with NoTracing():
+        items = other if type(other) is tuple else (other,)
+        plain = all(type(x) in (int, str, bytes, bool, float, type(None)) for x in items)
+        if plain:
+            return str.__mod__(self, other)
     return "<fmt>"
 
 
@@ -279,6 +285,8 @@ def explore(fn, budget_s=60.0, per_path_timeout=20.0, max_paths=10 ** 7,
             CTX.registry = []
             CTX.notes = []
             CTX.failures = []
+            for hook in PATH_RESET_HOOKS:
+                hook()
             space = StateSpace(
                 execution_deadline=now + per_path_timeout,
                 model_check_timeout=per_path_timeout / 2,
@@ -398,6 +406,8 @@ def run_native(fn, model=None, profile=None):
     CTX.registry = []
     CTX.notes = []
     CTX.failures = []
+    for hook in PATH_RESET_HOOKS:
+        hook()
     if profile is not None:
         sys.setprofile(profile)
     try:
